@@ -68,7 +68,7 @@ Example C04_demo_runs :
   let '(st, pc, o) := Exec.run demo (init_state 2) 100 in
   o = Halt /\ pc = 19 /\ rd st (R 4) = Some 2 /\ rd st (M 0) = Some 1 /\ rd st (R 0) = Some 4 /\
   shm_arrays st = [(1, [Some 2; None; Some 1; Some 2])] /\
-  find reg_eqb (R 4) (sregs st) = Some 2 /\ um st = [true; false] /\
+  find reg_eqb (R 4) (sregs st) = Some 2 /\ um st = [Some 0; None] /\ used st = [0] /\
   Exec.run demo (init_state 2) 100 = Sem.run demo (init_state 2) 100 /\
   Exec.run demo (init_state 2) 20 = (fst (fst (Exec.run demo (init_state 2) 20)), 8, OutOfFuel).
 Proof. vm_compute. repeat split; reflexivity. Qed.
@@ -173,7 +173,7 @@ Theorem C04_fault_names_line : forall prog st pc fuel i k,
 Proof. exact fault_names_line. Qed.
 
 Example C04_listed_faults_inhabited :
-  let st := with_um (write_array 1 [Some 8; None] (wr (wr (init_state 0) (R 1) 1) (R 2) 0)) [true; false] in
+  let st := with_um (write_array 1 [Some 8; None] (wr (wr (init_state 0) (R 1) 1) (R 2) 0)) [Some 0; None] [0] in
   listed_fault (IStore (R 9) 1 (OImm 0)) st FUndefReg /\
   listed_fault (ILoad (R 0) 1 (OReg (R 1))) st FUndefEntry /\
   listed_fault (IClassical (COpm OAdd (R 0) (R 1) (R 1) (R 2))) st FModulus /\
@@ -186,10 +186,39 @@ Proof.
   - apply LF_store_undefined. reflexivity.
   - apply (LF_load_undefined _ _ _ _ 1 [Some 8; None]); try reflexivity; try discriminate.
   - apply (LF_modulus _ _ _ _ _ _ 0); reflexivity.
-  - apply (LF_double_alloc _ _ 0); try reflexivity; try discriminate.
+  - apply (LF_double_alloc _ _ 0); try reflexivity; try discriminate. exists 0. reflexivity.
   - apply (LF_free_unallocated _ _ 1); try reflexivity; try discriminate.
   - apply (LF_store_past_end _ _ 1 _ _ 2 [Some 8; None]); try reflexivity; try discriminate.
 Qed.
+
+(* qalloc / qfree bookkeeping: the least unused physical qubit is mapped and marked in
+   use; qfree unmaps and releases exactly it.  A faulting qalloc (listed_fault:
+   double allocation; also id >= capacity) leaves unit module AND in-use set as they
+   were: C04_fault_names_line / C04_fault_stops return the whole state. *)
+Theorem C04_qalloc_bookkeeping : forall st pc r q p,
+  reg_ok r = true -> rd st r = Some q -> 0 <= q ->
+  nth_error (um st) (Z.to_nat q) = Some None -> least_unused (used st) = Some p ->
+  set_mem p (used st) = false /\
+  execute_command (IQalloc r) st pc =
+  Ok (with_um st (sset (Z.to_nat q) (Some p) (um st)) (set_add p (used st)), pc + 1).
+Proof. exact qalloc_bookkeeping. Qed.
+
+Theorem C04_qfree_bookkeeping : forall st pc r q p,
+  reg_ok r = true -> rd st r = Some q -> 0 <= q ->
+  nth_error (um st) (Z.to_nat q) = Some (Some p) -> set_mem p (used st) = true ->
+  execute_command (IQfree r) st pc =
+  Ok (with_um st (sset (Z.to_nat q) None (um st)) (set_remove p (used st)), pc + 1).
+Proof. exact qfree_bookkeeping. Qed.
+
+(* out-of-order allocation, a faulting double allocation in between, free, re-allocation:
+   physical ids 0,1 handed out, the fault leaks nothing, the freed id is reused *)
+Example C04_bookkeeping_example :
+  let p1 := [ISet (Q 0) 2; IQalloc (Q 0); ISet (Q 1) 0; IQalloc (Q 1); IQalloc (Q 0)] in
+  let p2 := [IQfree (Q 0); ISet (Q 2) 1; IQalloc (Q 2)] in
+  map (fun r => (um (fst (fst r)), used (fst (fst r)), snd r)) (Exec.run_many [p1; p2] (init_state 3) 20)
+  = [([Some 1; None; Some 0], [0; 1], Fault FAlloc 4); ([Some 1; Some 0; None], [1; 0], Halt)] /\
+  Exec.run_many [p1; p2] (init_state 3) 20 = Sem.run_many [p1; p2] (init_state 3) 20.
+Proof. vm_compute. split; reflexivity. Qed.
 
 (* a run that ends in a fault: the line named is the final pc; the final state is
    the state in which the faulting instruction started (reached through
@@ -230,4 +259,6 @@ Print Assumptions C04_register_slice.
 Print Assumptions C04_listed_fault_in_domain.
 Print Assumptions C04_fault_names_line.
 Print Assumptions C04_fault_stops.
+Print Assumptions C04_qalloc_bookkeeping.
+Print Assumptions C04_qfree_bookkeeping.
 Print Assumptions C04_demo_in_domain.
